@@ -27,7 +27,29 @@ def cost(parts):
     from metasequoia_sql import SQLParser, SQLType
     from metasequoia_sql.common import TokenScanner
     from metasequoia_sql.lexical import FSMMachine
-    counts = {"handle": 0, "cursor": 0, "maxback": 0}
+    counts = {"handle": 0, "cursor": 0, "maxback": 0, "reads": 0}
+
+    class CountingList(list):
+        """the token list of a cursor: one step per element read, k steps for a slice or an iteration of k elements (a copied tail is work too)"""
+        __slots__ = ()
+
+        def __getitem__(self, i):
+            r = list.__getitem__(self, i)
+            counts["reads"] += len(r) if isinstance(i, slice) else 1
+            return r
+
+        def __iter__(self):
+            counts["reads"] += len(self)
+            return list.__iter__(self)
+    oinit = TokenScanner.__init__
+
+    def init(self, elements, *a, **k):
+        oinit(self, elements, *a, **k)
+        counts["reads"] += 1
+        try:
+            self._elements = CountingList(self._elements)
+        except Exception:
+            pass
     oh = FSMMachine.handle
 
     def ch(self, memory, c):
@@ -35,6 +57,7 @@ def cost(parts):
         return oh(self, memory, c)
     wrapped = {}
     names = [n for n, v in vars(TokenScanner).items() if callable(v) and not n.startswith("__") and n not in ("elements", "pos")]
+    TokenScanner.__init__ = init
 
     def mk(name, fn):
         def w(self, *a, **k):
@@ -57,9 +80,10 @@ def cost(parts):
             out = "REJ:" + canon.err_kind(e).replace(" ", "_")
     finally:
         FSMMachine.handle = oh
+        TokenScanner.__init__ = oinit
         for n, f in wrapped.items():
             setattr(TokenScanner, n, f)
-    return "%s handle=%d cursor=%d backwards=%d" % (out, counts["handle"], counts["cursor"], counts["maxback"])
+    return "%s handle=%d cursor=%d reads=%d backwards=%d" % (out, counts["handle"], counts["cursor"], counts["reads"], counts["maxback"])
 
 
 def timing(parts):
